@@ -132,10 +132,16 @@ func GenOD(w *World, prof ODProfile) *Scenario {
 		sc.Desc = append(sc.Desc, fmt.Sprintf("template %d: %s", i, describeSet(store.Obj{"kind": "T", "metadata": map[string]any{"name": fmt.Sprint(i)}, "spec": t})))
 	}
 	nE := s.Intn(prof.MaxEdits+1, "nEdits")
+	// ping-pong: the template goes back and forth between two contents several times
+	// (A, B, A, B, A ...), so that a name freed by the collision counter is asked for again
+	pingPong := prof.EmptyStart && nT >= 2 && s.Chance(1, 5, "ping-pong")
+	if pingPong {
+		nE = 4 + s.Intn(3, "ping-pong-edits")
+	}
 	cur := start
 	for i := 0; i < nE; i++ {
 		kind := 0
-		if prof.Pause {
+		if prof.Pause && !pingPong {
 			kind = s.Weighted([]int{6, 2, 2, 1}, "edit-kind")
 		}
 		switch kind {
@@ -153,6 +159,12 @@ func GenOD(w *World, prof ODProfile) *Scenario {
 				continue
 			}
 			idx := s.Intn(nT, "edit-template")
+			if pingPong {
+				idx = (i + 1) % 2
+				if start == 1 || start < 0 {
+					idx = i % 2
+				}
+			}
 			what := "edit"
 			if idx == cur {
 				what = "no-op edit"
